@@ -166,4 +166,24 @@ package server
 //@   loop 2 invariant ghost_c19base == 0 && ghost_c19acc == 0
 //@   loop 3 invariant ghost_c19base == 0 && ghost_c19acc == 0
 
+// ---- C19: the caller of chatPrompt (server/routes.go ChatHandler) ----
+// (*http.Request).Context returns the request's context: a non-writing library function (trusted).
+//@ extern func net/http.(*Request).Context
+//@   modifies nothing
+
+// THE PROMPT AND IMAGE LIST SENT TO THE RUNNER (goroutine started by ChatHandler) are the ones chatPrompt
+// returned (the captured variables prompt / images, written only by the assignment from chatPrompt's
+// results) - not a re-rendered prompt, not a different image list - with the options of the scheduled runner.
+// (merged by the engine with the C17 block for the same closure in verif_contracts_c17.go; no opt line here)
+//@ func (*Server).ChatHandler$1
+//@   assert-at call Completion #1 : arg2.Prompt == prompt && len(arg2.Images) == len(images) && (len(images) > 0 ==> &arg2.Images[0] == &images[0]) && arg2.Options == opts
+
+// THE CONVERSATION HANDED TO chatPrompt: non-empty (chatPrompt's precondition len(msgs) >= 1 is now PROVED
+// at its only call site: pre@server.chatPrompt.1#1), laid out as [model system message, if the request does
+// not start with one and the model has one] + the model's messages + the request's messages (length
+// account, the prefix entry by entry, and the operands of the two appends), for the scheduled model, its
+// options and the request's tools. The five assume-at clauses are the definitional preconditions of
+// chatPrompt (names for counts over THIS message list, see above), moved to the call site; they restrict
+// nothing. The clauses are the last 12 lines of the `//@ func (*Server).ChatHandler` block in
+// verif_contracts_routes.go (one block per function; that file states the C01 clauses of the handler first).
 // ---- end C19 ----
